@@ -220,7 +220,7 @@ ExitRestores ==
 NoResidue == scopes["main"] = <<>> => loc["main"] = Empty
 
 \* the mapping children receive is the current view of the launching thread
-DetypeIsView == act.cmd = "detype" => res.out = DetypeCompute(act.t)
+DetypeIsView == [][\A t \in Threads : (act'.cmd = "detype" /\ act'.t = t) => res'.out = DetypeCompute(t)']_vars
 
 Bounded == TLCGet("level") <= MaxLevel
 =============================================================================
